@@ -379,6 +379,7 @@ func runC05(env *Env) {
 		}
 		in.Close()
 	}
+	c05BranchThroughConditionalActivity(env, rep)
 	c05EndElsewhereWhileBusy(env, rep, 6)
 	c05LongLoop(env, rep)
 	env.WriteCases(rep, "", "Corr.C05corr", "list nat * nat * list nat * nat * list nat * list nat * list nat", items, "c05_mismatches")
@@ -592,4 +593,80 @@ func tailStr(s string, n int) string {
 		return s
 	}
 	return "..." + s[len(s)-n:]
+}
+
+// an activated branch passes through an activity with conditional outgoing flows, the first listed of which does not
+// flow while a later one, leading to the join, does (and, variant, another one leads to an end event): the token that
+// goes on from there is still a token of the fork activation — the join waits for the other activated branch and
+// releases once
+func c05BranchThroughConditionalActivity(env *Env, rep *Report) {
+	for v := 0; v < 4 && !rep.Saturated(); v++ {
+		firstFlows := v%2 == 1 // control: the first listed flow is the one that flows
+		a2First := v < 2       // which branch is answered first
+		cs := fmt.Sprintf("inclusive fork -> {A1 -> join, A2 -> [p (%v) -> endP | q (%v) -> join]} -> Z; %s answered first", firstFlows, !firstFlows, map[bool]string{true: "A2", false: "A1"}[a2First])
+		env.Current(cs)
+		p := &Prog{}
+		p.Node("start", "start")
+		p.Node("incl", "IF")
+		p.Node("task", "A1")
+		p.Node("task", "A2")
+		p.Node("incl", "IJ")
+		p.Node("task", "Z")
+		p.Node("end", "end")
+		p.Node("task", "P")
+		p.Node("end", "endP")
+		p.Flow("start", "IF", "")
+		p.Flow("IF", "A1", "c0")
+		p.Flow("IF", "A2", "c1")
+		p.Flow("A1", "IJ", "")
+		if firstFlows {
+			p.Flow("A2", "IJ", "q")
+			p.Flow("A2", "P", "p")
+		} else {
+			p.Flow("A2", "P", "p")
+			p.Flow("A2", "IJ", "q")
+		}
+		p.Flow("P", "endP", "")
+		p.Flow("IJ", "Z", "")
+		p.Flow("Z", "end", "")
+		defs, err := ParseDefs(p.XML(""))
+		must(err)
+		in, err := StartInst(defs, InstOpt{Vars: map[string]any{"c0": true, "c1": true, "p": false, "q": true}})
+		must(err)
+		rep.Evaluations++
+		rep.Nontrivial++
+		rep.Count("branch_through_conditional_activity")
+		fail := func(key, msg string) { rep.Violate(key, cs, msg+"; log: "+logString(in.Log())) }
+		if !in.WaitUntil(tmoStep, func(l []Ev) bool { return countEv(l, "task", "A1") >= 1 && countEv(l, "task", "A2") >= 1 }) {
+			fail("C05-fork", "A1 and A2 were not both requested")
+			in.Close()
+			continue
+		}
+		first, second := "A2", "A1"
+		if !a2First {
+			first, second = "A1", "A2"
+		}
+		in.Answer(first, tmoStep)
+		in.WaitUntil(tmoStep, func(l []Ev) bool { return countEv(l, "visit", "IJ") >= 1 })
+		time.Sleep(15 * time.Millisecond)
+		if z := countEv(in.Log(), "task", "Z"); z != 0 {
+			fail("C05-join-early", fmt.Sprintf("the join released %d token(s) after %s alone was answered; %s is still pending", z, first, second))
+		}
+		in.Answer(second, tmoStep)
+		if !in.WaitUntil(tmoStep, func(l []Ev) bool { return countEv(l, "task", "Z") >= 1 }) {
+			fail("C05-join-late", "both activated branches have delivered, the join did not release")
+			in.Close()
+			continue
+		}
+		time.Sleep(15 * time.Millisecond)
+		in.Answer("Z", tmoStep)
+		in.WaitCease(tmoStep)
+		if z := countEv(in.Log(), "task", "Z"); z != 1 {
+			fail("C05-join-once", fmt.Sprintf("task after the join requested %d times", z))
+		}
+		if n := countEv(in.Log(), "task", "P"); n != 0 {
+			fail("C05-fork", fmt.Sprintf("the task behind the flow whose condition is false was requested %d times", n))
+		}
+		in.Close()
+	}
 }
